@@ -173,10 +173,12 @@ fn ping_part(rep: &Arc<Reporter>, ctx: &Arc<Ctx>) {
     let mut id = 100;
     for proto in [Proto::H1, Proto::H2] {
         for via in [Via::Direct, Via::MainHost] {
-            for (method, path, marker) in [("GET", "/", "x-ping"), ("GET", "/", "sec-fetch-mode"), ("HEAD", "/anything?x=1", "x-ping"), ("POST", "/", "x-ping"), ("GET", "/speed/1mb.bin", "x-ping")] {
+            for (method, path, marker) in [("GET", "/", "x-ping"), ("GET", "/", "sec-fetch-mode"), ("HEAD", "/anything?x=1", "x-ping"), ("POST", "/", "x-ping"), ("GET", "/speed/1mb.bin", "x-ping"),
+                // authority-form targets bearing a marker: a ping all the same, never a tunnel to the named destination
+                ("CONNECT", "steered.example:443", "x-ping"), ("CONNECT", "203.0.113.9:22", "sec-fetch-mode")] {
                 id += 1;
                 let fwd = RecFwd::new(|_| Outcome::Echo);
-                let mut req = Req::new(method, &format!("https://main.test{}", path));
+                let mut req = if method == "CONNECT" { let mut r = Req::new("CONNECT", path); r.end_stream = false; r } else { Req::new(method, &format!("https://main.test{}", path)) };
                 if marker == "x-ping" { req = req.header("x-ping", b"1"); } else { req = req.header("sec-fetch-mode", b"navigate"); }
                 if method == "POST" { req = req.header("content-length", b"0"); }
                 let o = rt.block_on(request(ctx, proto, Handler::Ping, via, &fwd, &req, 0, (65536, 0), id));
